@@ -2,7 +2,7 @@
    `gather` is the line-by-line model of scores.utils.gather_dimensions (coq/lib/Dims.v), tied to the code by an
    exhaustive correspondence over a 4-name universe; `mean_score` is the functional every mean-type score instantiates
    (coq/lib/Larr.v).  All statements hold for arbitrary lists of dimension names (no bound on their number). *)
-From V Require Import lib.Tree proofs.C01.
+From V Require Import lib.Tree proofs.C01 model.C05 proofs.C01_scores.
 Open Scope string_scope.
 
 (* naming both options is a ValueError, whatever else is passed *)
@@ -79,6 +79,28 @@ Theorem C01_mean_of_pointwise : forall s w R e,
                (envs (lsize (apply_weights w s)) (dinter (ldims (apply_weights w s)) R) e)).
 Proof. exact mean_is_nanmean_of_pointwise. Qed.
 Print Assumptions C01_mean_of_pointwise.
+
+(* ---- lifted to whole score functions of the model: simple_mean_m k is mse / mae / additive_bias / mean_error with the
+        kernel regenerated from source (model/C05.v) ---- *)
+Theorem C01_score_reduce_equals_preserve : forall k f o w R, dsubset R (data_dims f o) = true ->
+  req (simple_mean_m k f o (DList R) DNone w) (simple_mean_m k f o DNone (DList (ddiff (data_dims f o) R)) w).
+Proof. exact simple_mean_reduce_preserve. Qed.
+Print Assumptions C01_score_reduce_equals_preserve.
+Theorem C01_score_none_is_all : forall k f o w, simple_mean_m k f o DNone DNone w = simple_mean_m k f o (DStr "all") DNone w.
+Proof. exact simple_mean_none_is_all. Qed.
+Print Assumptions C01_score_none_is_all.
+Theorem C01_score_both_error : forall k f o w r p, r <> DNone -> p <> DNone -> simple_mean_m k f o r p w = Err ValueError.
+Proof. exact simple_mean_both_error. Qed.
+Print Assumptions C01_score_both_error.
+Theorem C01_score_absent_error : forall k f o w l d, In d l -> mem d (data_dims f o) = false ->
+  simple_mean_m k f o (DList l) DNone w = Err ValueError /\ simple_mean_m k f o DNone (DList l) w = Err ValueError.
+Proof. exact simple_mean_absent_error. Qed.
+Print Assumptions C01_score_absent_error.
+Theorem C01_score_result_dims : forall k f o w rd pd R r, gather (ldims f) (ldims o) None rd pd DNone = Ok R ->
+  simple_mean_m k f o rd pd w = Ok r ->
+  forall d, mem d (ldims r) = mem d (ldims (apply_weights w (lzip k f o))) && negb (mem d R).
+Proof. exact simple_mean_result_dims. Qed.
+Print Assumptions C01_score_result_dims.
 
 Example C01_nonvacuous : dsubset ["a"] (all_data ["a"; "b"] ["b"] None) = true /\ "a" <> "all" /\ "a" <> "".
 Proof. repeat split; try reflexivity; discriminate. Qed.
